@@ -68,8 +68,10 @@ func (q *Queue) Insert(i interface{}) (bool, error) {
 		return false, errClosedQueue
 	default:
 	}
+	verifPoint("insert:checked")
 
 	ok := q.insert(i)
+	verifPoint("insert:inserted")
 
 	if ok {
 		select {
@@ -104,6 +106,7 @@ func (q *Queue) Next(ctx context.Context) (interface{}, uint32, error) {
 			return i, coalesced, nil
 		}
 		// Wait for an insert or a close.
+		verifPoint("next:empty")
 		select {
 		case <-ctx.Done():
 			return nil, 0, ctx.Err()
